@@ -196,8 +196,17 @@ class Evaluator(object):
         return env
 
     def _exec_block(self, m, stmts, env, cls):
+        """Returns 'continue' / 'break' when the block was left by that statement (module-level loops with guard
+        clauses), else None."""
         for s in stmts:
-            self._exec(m, s, env, cls)
+            if isinstance(s, ast.Continue):
+                return 'continue'
+            if isinstance(s, ast.Break):
+                return 'break'
+            r = self._exec(m, s, env, cls)
+            if r in ('continue', 'break'):
+                return r
+        return None
 
     def _exec(self, m, s, env, cls):
         if isinstance(s, (ast.Import, ast.ImportFrom)):
@@ -250,7 +259,8 @@ class Evaluator(object):
                 return
             for item in seq:
                 self._assign(m, s.target, item, env, cls, s)
-                self._exec_block(m, s.body, env, cls)
+                if self._exec_block(m, s.body, env, cls) == 'break':
+                    break
             return
         if isinstance(s, ast.If):
             t = self.eval(m, s.test, env, cls)
@@ -264,8 +274,7 @@ class Evaluator(object):
                         if isinstance(tgt, VDict):
                             tgt.d['<poisoned>'] = Unknown('store under undecidable test %s' % norm(s.test))
                 return
-            self._exec_block(m, s.body if _truth(t) else s.orelse, env, cls)
-            return
+            return self._exec_block(m, s.body if _truth(t) else s.orelse, env, cls)
         if isinstance(s, ast.Try):
             self._exec_block(m, s.body, env, cls)
             self._exec_block(m, s.orelse, env, cls)
